@@ -365,10 +365,10 @@ type Keeper interface {
 // If a sentinel ComparableDist with a nil Comparable is used by the Keeper to mark the
 // maximum distance, NearestSet will remove it before returning.
 func (t *Tree) NearestSet(k Keeper, q Comparable) {
-	if t.Root == nil {
-		return
+	// The sentinel is removed below also when the tree is empty.
+	if t.Root != nil {
+		t.Root.searchSet(q, k)
 	}
-	t.Root.searchSet(q, k)
 
 	// Check whether we have retained a sentinel
 	// and flag removal if we have.
